@@ -138,9 +138,41 @@ def grep_forbidden(modules):
     return hits
 
 
+EXTRACT_DIR = os.path.join(VERIF, "go", "extract")
+FACTS_LEAN = os.path.join(LEAN_DIR, "Helios", "Generated", "Facts.lean")
+
+
+def regen_facts(ctx=None):
+    """Tie B: re-derive the structural facts from /repo's current source and (re)write
+    Helios/Generated/Facts.lean when they changed, so the fact obligations are re-checked."""
+    exe = os.path.join(EXTRACT_DIR, "extract")
+    lock = _lake_lock()
+    try:
+        if not os.path.exists(exe) or os.path.getmtime(exe) < os.path.getmtime(os.path.join(EXTRACT_DIR, "main.go")):
+            p = subprocess.run(["go", "build", "-o", "extract", "."], cwd=EXTRACT_DIR, env=GOENV,
+                               stdout=subprocess.PIPE, stderr=subprocess.STDOUT, text=True, timeout=600)
+            if p.returncode != 0:
+                raise BuildError("fact extractor does not build: " + p.stdout[-1500:])
+        fj = os.path.join(ctx.scratch, "facts.json") if ctx else "/dev/null"
+        p = subprocess.run([exe, REPO, fj], stdout=subprocess.PIPE, stderr=subprocess.PIPE, text=True, timeout=120)
+        if p.returncode != 0 or "namespace Helios.Facts" not in p.stdout:
+            raise BuildError("fact extractor failed: " + p.stderr[-1500:])
+        old = open(FACTS_LEAN, encoding="utf-8").read() if os.path.exists(FACTS_LEAN) else ""
+        if old != p.stdout:
+            with open(FACTS_LEAN, "w", encoding="utf-8") as f:
+                f.write(p.stdout)
+            return True
+        return False
+    finally:
+        lock.close()
+
+
 def prove(ctx, modules, theorems):
     """Build the proof modules and audit the axioms of every property theorem.
     Records one obligation per theorem in ctx.obligations."""
+    changed = regen_facts(ctx)
+    if changed:
+        ctx.notes.append("facts regenerated from the source differ from the committed Generated/Facts.lean")
     ok, log = lake_build(list(modules) + ["driver"])
     if not ok:
         # find which module failed
